@@ -542,6 +542,26 @@ func c14chain(rec *mon.Recorder, r *mon.Rand, k c14key, idx int) {
 }
 
 func c14ed(rec *mon.Recorder, r *mon.Rand, priv ed25519.PrivateKey, idx int) {
+	// Ed25519 is deterministic: a signer obtained through COSE_Key signs without any entropy source
+	if ck, err := cose.NewKeyFromPrivate(priv); err == nil {
+		if sg, err := ck.Signer(); err == nil {
+			var sig []byte
+			var serr error
+			in0 := map[string]any{"family": "ed25519 without entropy source", "seed": fmt.Sprintf("%x", priv.Seed())}
+			if !guard(rec, "Ed25519 Sign(nil rand)", in0, func() { sig, serr = sg.Sign(nil, []byte("no entropy needed")) }) {
+				rec.Event("ed25519-nil-entropy")
+				if serr != nil || !ed25519.Verify(priv.Public().(ed25519.PublicKey), []byte("no entropy needed"), sig) {
+					rec.Violate("chain:ed25519-sign-without-entropy", "ed25519", fmt.Sprintf("a key-derived Ed25519 signer does not sign with a nil entropy source: %v", serr), in0)
+				}
+				var out []byte
+				if !guard(rec, "Sign1(nil rand, Ed25519)", in0, func() {
+					out, serr = cose.Sign1(nil, sg, cose.Headers{Protected: cose.ProtectedHeader{int64(1): cose.AlgorithmEdDSA}}, []byte("p"), nil)
+				}) && (serr != nil || len(out) == 0) {
+					rec.Violate("chain:ed25519-sign1-without-entropy", "ed25519", fmt.Sprintf("Sign1 with an Ed25519 signer and a nil entropy source failed: %v", serr), in0)
+				}
+			}
+		}
+	}
 	pub := priv.Public().(ed25519.PublicKey)
 	in := map[string]any{"curve": "Ed25519", "seed": fmt.Sprintf("%x", priv.Seed())}
 	fail := func(step string, err error) {
